@@ -22,10 +22,13 @@ Invs == {Inv(p, s, u, l) : p \in 0..2, s \in 1..Len(Shapes), u \in Ups, l \in 0.
 Init == invs = <<>>
 Next == Len(invs) < MaxInv /\ \E i \in {RandomElement(Invs)} : invs' = Append(invs, i)
 Spec == Init /\ [][Next]_invs
-Case(f, is) == [fault |-> f, invs |-> is]
+Case(f, is) == [fault |-> f, invs |-> is, init |-> 0]
+\* init: datapoints accepted during the init phase, before the extension's first request for an invocation
+CaseI(n, is) == [fault |-> "none", invs |-> is, init |-> n]
 Core == {
   Case("badmode", <<>>), Case("noendpoint", <<>>), Case("badcompression", <<>>),
   Case("none", <<>>),
+  CaseI(2, <<>>), CaseI(1, <<Inv(1, 1, "ok", 0)>>), CaseI(2, <<Inv(0, 3, "slow", 0), Inv(1, 1, "ok", 0)>>),
   Case("none", <<Inv(2, 1, "ok", 0)>>),
   Case("none", <<Inv(1, 3, "ok", 0), Inv(1, 1, "ok", 0)>>),                  \* a look-alike record type before the real one
   Case("none", <<Inv(1, 5, "slow", 1), Inv(2, 2, "ok", 0)>>),
@@ -35,5 +38,5 @@ Core == {
   Case("none", <<Inv(0, 1, "ok", 0), Inv(0, 3, "ok", 1), Inv(2, 1, "slow", 0)>>)
 }
 ASSUME \A c \in Core : PrintT(<<"CASE", ToJson(c)>>)
-Emit == Len(invs) < MaxInv \/ PrintT(<<"CASE", ToJson(Case("none", invs))>>)
+Emit == Len(invs) < MaxInv \/ PrintT(<<"CASE", ToJson(CaseI(RandomElement(0..2), invs))>>)
 =============================================================================
